@@ -283,3 +283,28 @@ def step_cap(limit=None):
         yield n
     finally:
         _backend.accept_metropolis = orig
+
+
+# ---------------------------------------------------------------- a user-registered coordinate format
+_CUSTOM = []
+
+
+def custom_coordinate_format():
+    """Registers (once per process) a coordinate parser of the user's own, the way the README describes: a subclass with
+    its own EXTENSIONS.  It reads and writes the .gro layout under the extension "gro2" and - like the README's example
+    parser - reports its title without the line break.  Returns the extension."""
+    if not _CUSTOM:
+        from gaddlemaps.parsers import GroFile
+
+        class Gro2File(GroFile):
+            EXTENSIONS = ("gro2",)
+
+            @property
+            def comment(self):
+                return GroFile.comment.fget(self).rstrip("\n")
+
+            @comment.setter
+            def comment(self, value):
+                GroFile.comment.fset(self, value)
+        _CUSTOM.append(Gro2File)
+    return "gro2"
